@@ -165,6 +165,42 @@ def hand_lift_arith2(x: fp.Real, y: fp.Real, xs: list[fp.Real], k: fp.Real):
     with fp.MPFloatContext(3 * 3):
         b = a / 3 + 1.1
     return a, b''',
+    'hand_lift_rebound_param': '''@fp.fpy
+def hand_lift_rebound_param(x: fp.Real, y: fp.Real, xs: list[fp.Real], k: fp.Real):
+    k = 9
+    with fp.MPFloatContext(k):
+        a = x / 3 + y / 7
+    acc = a
+    for e in xs:
+        with fp.MPFloatContext(k):
+            acc = acc + e / 3
+    return (a, acc)''',
+    'hand_close_equal_values': '''@fp.fpy
+def hand_close_equal_values(x: fp.Real, y: fp.Real, xs: list[fp.Real], k: fp.Real):
+    a = 1 / PZ
+    b = 1 / NZ
+    c = x if YES else y
+    d = ONE + x
+    return (a, b, c, d)''',
+    'hand_callee_globals': '''@fp.fpy
+def hand_cg_one(p: fp.Real) -> fp.Real:
+    return p + t
+
+@fp.fpy
+def hand_cg_two(p: fp.Real) -> fp.Real:
+    return p + K
+
+@fp.fpy
+def hand_cg_three(p: fp.Real) -> fp.Real:
+    K = p * 2
+    return K + 1
+
+@fp.fpy
+def hand_callee_globals(x: fp.Real, y: fp.Real, xs: list[fp.Real], k: fp.Real):
+    a = hand_cg_one(x) * 2
+    b = hand_cg_two(x)
+    c = hand_cg_three(y)
+    return (a, b, c, a + b + hand_cg_two(y))''',
     'hand_capture': '''@fp.fpy
 def hand_capture(x: fp.Real, y: fp.Real, xs: list[fp.Real], k: fp.Real):
     with fp.MPFloatContext(3):
